@@ -25,7 +25,7 @@
 EXTENDS Integers, Sequences, FiniteSets, TLC, Json, BlockManagerProps
 
 CONSTANTS MaxMsgs,          \* messages / events per history
-          MaxRestarts,
+          MaxRestarts, MaxFaults,
           FixCpFloor,       \* reorg floor uses the checkpoint AT the tip height too
           FixListReset,     \* header list re-anchored on the stored tip on early returns
           FixFilterTip      \* rollBackToHeight lowers the in-memory filter tip
@@ -40,12 +40,12 @@ VARIABLES bfile, bidx, btip,      \* block-header store: file, index (id+1 -> he
           lastReq,                \* lastRequested hash (id, -1 none)
           hTip, fhTip,            \* in-memory published tips (heights)
           ev,                     \* events emitted by the last action
-          nmsgs, nrestarts,
+          nmsgs, nrestarts, nfaults,
           abs, act, viol
 
 wvars == <<bfile, bidx, btip, ffile, ftip, hl, nextCp, sync, cands, conn, lastBlock,
            startH, disc, lastReq, hTip, fhTip, ev>>
-vars  == <<wvars, nmsgs, nrestarts, abs, act, viol>>
+vars  == <<wvars, nmsgs, nrestarts, nfaults, abs, act, viol>>
 
 Peers == 1..NPeers
 HMax  == MaxHeight + 2            \* heights 0..MaxHeight+1 are read back
@@ -140,7 +140,7 @@ RollLoop(w, bsId, bsH, regH, target) ==
                    ELSE
                    LET ph == FetchHeader(rb.w, newTip)
                    IN  IF ph[1] = ERR THEN [w |-> rb.w, ok |-> FALSE]
-                       ELSE RollLoop([rb.w EXCEPT !.ev = Append(@, <<2, hdr, hh, ph[1], -1>>)],
+                       ELSE RollLoop([rb.w EXCEPT !.ev = Append(@, <<2, hdr, hh, ph[1], -1, -1>>)],
                                      rb.id, rb.h, rf.h, target)
 
 RollBackTo(w, target) ==
@@ -241,17 +241,19 @@ HdrLoop(w, p, b, i, wb, recv, fin) ==
                                  w4 == [w3 EXCEPT !.hl = << <<fb[1], backH>>, <<h, backH + 1>> >>]
                              IN  HdrLoop(w4, p, b, i + 1, wb, recv, fin)
 
-HandleHeaders0(w, p, b) ==
+HandleHeaders0(w, p, b, failWrite) ==
   IF ~ConnectedBatch(b) THEN Disc(w, p)
   ELSE LET r == HdrLoop(w, p, b, 1, <<>>, FALSE, 0)
        IN  IF r.ret THEN r.w
+           ELSE IF failWrite /\ r.wb # <<>> THEN r.w      \* "Unable to write block headers": return
            ELSE LET w1 == WriteB(r.w, r.wb)
                     w2 == IF r.recv THEN [w1 EXCEPT !.nextCp = FindNextCp(r.fin)] ELSE w1
                 IN  [w2 EXCEPT !.hTip = r.fin]
 
-HandleHeaders(w, p, b) ==
+HandleHeaders(w, p, b, failWrite) ==
   IF b = <<>> THEN w
-  ELSE IF FixListReset THEN Realign(HandleHeaders0(w, p, b)) ELSE HandleHeaders0(w, p, b)
+  ELSE IF FixListReset THEN Realign(HandleHeaders0(w, p, b, failWrite))
+       ELSE HandleHeaders0(w, p, b, failWrite)
 
 HandleNewPeer(w, p, sh) ==
   LET w1 == [w EXCEPT !.conn[p] = TRUE, !.lastBlock[p] = sh, !.startH[p] = sh,
@@ -282,7 +284,7 @@ HandleWriteCF(w, k) ==
       st   == endH - (k - 1)
       ids  == [j \in 1..k |-> ReadB(w, st + j - 1)]
       w1   == [w EXCEPT !.ffile = @ \o ids, !.ftip = ids[k], !.fhTip = st + k - 1]
-      evs  == [j \in 1..k |-> <<1, ids[j], st + j - 1, -1, st + k - 1>>]
+      evs  == [j \in 1..k |-> <<1, ids[j], st + j - 1, -1, st + k - 1, st + k - 1>>]
   IN  [w1 EXCEPT !.ev = @ \o evs]
 
 Backlog(w, k) ==
@@ -319,23 +321,26 @@ Finish(w, a0) ==
 Tick == nmsgs < MaxMsgs /\ nmsgs' = nmsgs + 1 /\ UNCHANGED nrestarts
 
 NewPeer(p, sh) ==
-  /\ Tick /\ ~conn[p]
+  /\ Tick /\ ~conn[p] /\ UNCHANGED nfaults
   /\ Finish(HandleNewPeer(W, p, sh), Act("NewPeer", p, <<>>, sh, "ok"))
 
 DonePeer(p) ==
-  /\ Tick /\ conn[p]
+  /\ Tick /\ conn[p] /\ UNCHANGED nfaults
   /\ Finish(HandleDonePeer(W, p), Act("DonePeer", p, <<>>, 0, "ok"))
 
 Inv(p, id) ==
-  /\ Tick /\ conn[p]
+  /\ Tick /\ conn[p] /\ UNCHANGED nfaults
   /\ Finish(HandleInv(W, p, id), Act("Inv", p, <<id>>, 0, "ok"))
 
-Headers(p, b) ==
+\* fw = 1: the store's WriteHeaders fails for the validated batch (I/O error)
+Headers(p, b, fw) ==
   /\ Tick /\ conn[p]
-  /\ Finish(HandleHeaders(W, p, b), Act("Headers", p, b, 0, "ok"))
+  /\ fw = 1 => nfaults < MaxFaults
+  /\ nfaults' = nfaults + fw
+  /\ Finish(HandleHeaders(W, p, b, fw = 1), Act("Headers", p, b, fw, "ok"))
 
 WriteCF(k) ==
-  /\ Tick
+  /\ Tick /\ UNCHANGED nfaults
   /\ LET ft == FTip(W) bt == BTip(W) IN
        /\ ft[1] # ERR /\ bt[1] # ERR /\ ft[2] + k <= bt[2]
        /\ \A j \in 1..k : ReadB(W, ft[2] + j) >= 0
@@ -344,7 +349,7 @@ WriteCF(k) ==
 
 \* Process restart: newBlockManager on the persisted stores; peers are gone.
 Restart ==
-  /\ nrestarts < MaxRestarts /\ nrestarts' = nrestarts + 1 /\ UNCHANGED nmsgs
+  /\ nrestarts < MaxRestarts /\ nrestarts' = nrestarts + 1 /\ UNCHANGED <<nmsgs, nfaults>>
   /\ BTip(W)[1] # ERR /\ FTip(W)[1] # ERR
   /\ LET t == BTip(W)
          w == [W EXCEPT !.hl = << <<t[1], t[2]>> >>, !.nextCp = FindNextCp(t[2]),
@@ -355,22 +360,30 @@ Restart ==
                         !.hTip = t[2], !.fhTip = FTip(W)[2]]
      IN  Finish(w, Act("Restart", 0, <<>>, 0, "ok"))
 
+\* The client starts on stores that already hold one of the universe's
+\* InitChains (block headers) with filter headers committed for the first fl
+\* of them: what newBlockManager finds after a restart.
 Init ==
-  /\ bfile = <<0>> /\ bidx = [i \in 1..NIds |-> IF i = 1 THEN 0 ELSE NF] /\ btip = 0
-  /\ ffile = <<0>> /\ ftip = 0
-  /\ hl = << <<0, 0>> >> /\ nextCp = FindNextCp(0)
+  \E ci \in 1..Len(InitChains) : \E fl \in {1, Len(InitChains[ci])} :
+  LET c == InitChains[ci] IN
+  /\ bfile = c
+  /\ bidx = [i \in 1..NIds |-> IF \E k \in 1..Len(c) : c[k] = i - 1
+                               THEN (CHOOSE k \in 1..Len(c) : c[k] = i - 1) - 1 ELSE NF]
+  /\ btip = c[Len(c)]
+  /\ ffile = SubSeq(c, 1, fl) /\ ftip = c[fl]
+  /\ hl = << <<c[Len(c)], Len(c) - 1>> >> /\ nextCp = FindNextCp(Len(c) - 1)
   /\ sync = 0 /\ cands = <<>>
   /\ conn = [p \in Peers |-> FALSE] /\ lastBlock = [p \in Peers |-> 0]
   /\ startH = [p \in Peers |-> 0] /\ disc = [p \in Peers |-> 0]
-  /\ lastReq = -1 /\ hTip = 0 /\ fhTip = 0 /\ ev = <<>>
-  /\ nmsgs = 0 /\ nrestarts = 0
-  /\ abs = AbsInit /\ act = Act("Init", 0, <<>>, 0, "ok") /\ viol = {}
+  /\ lastReq = -1 /\ hTip = Len(c) - 1 /\ fhTip = fl - 1 /\ ev = <<>>
+  /\ nmsgs = 0 /\ nrestarts = 0 /\ nfaults = 0
+  /\ abs = AbsInit /\ act = Act("Init", 0, c, fl, "ok") /\ viol = {}
 
 Next ==
   \/ \E p \in Peers : \E sh \in StartHeights : NewPeer(p, sh)
   \/ \E p \in Peers : DonePeer(p)
   \/ \E p \in Peers : \E id \in InvIds : Inv(p, id)
-  \/ \E p \in Peers : \E k \in 1..Len(Batches) : Headers(p, Batches[k])
+  \/ \E p \in Peers : \E k \in 1..Len(Batches) : \E fw \in {0, 1} : Headers(p, Batches[k], fw)
   \/ \E k \in 1..MaxCF : WriteCF(k)
   \/ Restart
 
@@ -386,7 +399,8 @@ NoViolation == viol = {}
 State == [bfile |-> bfile, bidx |-> bidx, btip |-> btip, ffile |-> ffile, ftip |-> ftip,
           hl |-> hl, nextCp |-> nextCp, sync |-> sync, cands |-> cands, conn |-> conn,
           lastBlock |-> lastBlock, startH |-> startH, disc |-> disc, lastReq |-> lastReq,
-          hTip |-> hTip, fhTip |-> fhTip, nmsgs |-> nmsgs, nrestarts |-> nrestarts]
+          hTip |-> hTip, fhTip |-> fhTip, nmsgs |-> nmsgs, nrestarts |-> nrestarts,
+          nfaults |-> nfaults]
 View == <<bfile, bidx, btip, ffile, ftip, hl, nextCp, sync, cands, conn, lastBlock,
-          startH, disc, lastReq, hTip, fhTip, nmsgs, nrestarts>>
+          startH, disc, lastReq, hTip, fhTip, nmsgs, nrestarts, nfaults>>
 =============================================================================
